@@ -3,7 +3,32 @@
 /repo + a copy of /verif/sim pointing at it): apply seeded/<id>/patch.diff, run the target
 property's quick check at full budget, revert. Writes seeded/recheck.json. Does not touch /repo."""
 import glob, json, os, re, shutil, subprocess, sys, time
-RC = "/tmp/rck"
+# tools/seed_recheck.py [filter]            one scratch copy, sequential
+# tools/seed_recheck.py --shards N          N scratch copies side by side (rows merged at the end)
+if len(sys.argv) > 2 and sys.argv[1] == "--shards":
+    n = int(sys.argv[2])
+    ps = [subprocess.Popen([sys.executable, __file__, "--shard", str(i), str(n)]) for i in range(n)]
+    for p in ps: p.wait()
+    rows = []
+    for i in range(n):
+        rows += json.load(open(f"/tmp/rck_rows{i}.json")); os.remove(f"/tmp/rck_rows{i}.json")
+    head = subprocess.run("git -C /verif rev-parse --short HEAD", shell=True, capture_output=True, text=True).stdout.strip()
+    if os.environ.get("RCK_FILTER") and os.path.exists("/verif/seeded/recheck.json"):
+        # partial re-run: the rows of this run replace the rows with the same id; every row says
+        # which harness state produced it
+        for r in rows: r["harness"] = head + " + working tree of " + time.strftime("%Y-%m-%d %H:%M")
+        old = json.load(open("/verif/seeded/recheck.json")); ids = {r["id"] for r in rows}
+        for r in old["rows"]: r.setdefault("harness", old.get("verif_commit"))
+        rows = [r for r in old["rows"] if r["id"] not in ids] + rows
+    rows.sort(key=lambda r: r["id"])
+    json.dump({"verif_commit": head, "rows": rows, "all_caught": all(r.get("exit") == 1 for r in rows)}, open("/verif/seeded/recheck.json", "w"), indent=1)
+    print("all caught:", all(r.get("exit") == 1 for r in rows), len(rows))
+    print("missed:", [r["id"] for r in rows if r.get("exit") != 1])
+    sys.exit(0)
+SHARD = None
+if len(sys.argv) > 3 and sys.argv[1] == "--shard":
+    SHARD = (int(sys.argv[2]), int(sys.argv[3])); sys.argv = sys.argv[:1]
+RC = "/tmp/rck" + (str(SHARD[0]) if SHARD else "")
 ENV = dict(os.environ, CARGO_NET_OFFLINE="true", VERIF_DIR=f"{RC}/out")
 def sh(cmd, cwd=None):
     p = subprocess.run(cmd, shell=True, cwd=cwd, env=ENV, stdout=subprocess.PIPE, stderr=subprocess.STDOUT, text=True)
@@ -14,11 +39,17 @@ rc, o = sh(f"git -C /repo worktree add -q --detach {RC}/repo HEAD"); assert rc =
 shutil.copytree("/verif/sim", f"{RC}/sim", ignore=shutil.ignore_patterns("target", "target-*"))
 t = open(f"{RC}/sim/Cargo.toml").read().replace('path = "/repo"', f'path = "{RC}/repo"'); open(f"{RC}/sim/Cargo.toml", "w").write(t)
 shutil.copy("/verif/known_findings.json", f"{RC}/out")
+# a scratch copy of the driver as well: changes hidden behind a build configuration are only
+# seen by the other binaries that ./check builds and runs
+shutil.copy("/verif/check", f"{RC}/check"); shutil.copy("/verif/known_findings.json", RC)
+os.makedirs(f"{RC}/evidence", exist_ok=True); os.makedirs(f"{RC}/replays", exist_ok=True)
 head = sh("git -C /verif rev-parse --short HEAD")[1].strip()
 rows = []
 flt = sys.argv[1] if len(sys.argv) > 1 else ""
-for f in sorted(glob.glob("/verif/seeded/C*-*/meta.json")):
+for fi, f in enumerate(sorted(glob.glob("/verif/seeded/C*-*/meta.json"))):
+    if SHARD and fi % SHARD[1] != SHARD[0]: continue
     m = json.load(open(f)); d = os.path.dirname(f)
+    if os.environ.get("RCK_FILTER") and os.environ["RCK_FILTER"] not in m["id"]: continue
     if flt and flt not in m["id"]: continue
     prop = m["breaks_property"]
     rc, o = sh(f"git apply {d}/patch.diff", cwd=f"{RC}/repo")
@@ -31,10 +62,17 @@ for f in sorted(glob.glob("/verif/seeded/C*-*/meta.json")):
             pass  # stable binary only here; the const-generic twin is covered by ./check on /repo
         t0 = time.time()
         rc, o = sh(f"{RC}/sim/target/release/avsim --property {prop} --tier quick")
-        rows.append({"id": m["id"], "property": prop, "exit": rc, "classes": re.findall(r"violation class=(\S+)", o)[:3], "s": round(time.time() - t0, 1)})
+        how = "stable binary"
+        if rc == 0:
+            # not seen by the default build: the whole ./check (std / debug-assertions and nightly binaries too)
+            rc, o = sh(f"{RC}/check {prop} quick"); how = "./check (all build configurations)"
+        rows.append({"id": m["id"], "property": prop, "exit": rc, "classes": re.findall(r"violation class=(\S+)", o)[:3], "s": round(time.time() - t0, 1), "run": how})
         print(m["id"], prop, "exit", rc, flush=True)
     finally:
         sh("git checkout -q -- .", cwd=f"{RC}/repo")
-json.dump({"verif_commit": head, "rows": rows, "all_caught": all(r.get("exit") == 1 for r in rows)}, open("/verif/seeded/recheck.json", "w"), indent=1)
+if SHARD:
+    json.dump(rows, open(f"/tmp/rck_rows{SHARD[0]}.json", "w"))
+else:
+    json.dump({"verif_commit": head, "rows": rows, "all_caught": all(r.get("exit") == 1 for r in rows)}, open("/verif/seeded/recheck.json", "w"), indent=1)
 sh(f"git -C /repo worktree remove --force {RC}/repo"); shutil.rmtree(RC, ignore_errors=True)
 print("all caught:", all(r.get("exit") == 1 for r in rows), len(rows))
